@@ -27,6 +27,53 @@ def c_event(N, ev):
     return f"(mk_event {k} {c_nat(ev['span'])} {c_opt(ev['parent'], c_nat)} {c_pos(N(node))})"
 
 
+def real_tree(evs):
+    """The span tree of an observed stream: children in order of their start; a RouteDecision marks the open node span of its
+    name under the run it names."""
+    nodes, root, open_nodes = {}, None, []
+    for e in evs:
+        ty = e["type"]
+        if ty == "RunStartEvent":
+            t = {"run": True, "failed": False, "is_map": bool(e.get("is_map")), "kids": []}
+            nodes[e["span"]] = t
+            if e["parent"] is None:
+                root = t
+            else:
+                nodes[e["parent"]]["kids"].append(t)
+        elif ty == "NodeStartEvent":
+            t = {"run": False, "name": e["node_name"], "err": False, "route": False, "kids": [], "parent": e["parent"], "span": e["span"]}
+            nodes[e["span"]] = t
+            nodes[e["parent"]]["kids"].append(t)
+            open_nodes.append(t)
+        elif ty in ("NodeEndEvent", "NodeErrorEvent"):
+            t = nodes[e["span"]]
+            t["err"] = ty == "NodeErrorEvent"
+            open_nodes = [x for x in open_nodes if x is not t]
+        elif ty == "RunEndEvent":
+            nodes[e["span"]]["failed"] = e.get("status") == "failed"
+        elif ty == "RouteDecisionEvent":
+            for x in open_nodes:
+                if x["name"] == e.get("node_name") and x["parent"] == e["parent"]:
+                    x["route"] = True
+    return root
+
+
+def c_stree(N, t):
+    kids = c_list([c_stree(N, k) for k in t["kids"]])
+    if t["run"]:
+        return f"(ST (LRun {c_bool(t['failed'])} {c_bool(t['is_map'])}) {kids})"
+    return f"(ST (LNode {c_pos(N(t['name']))} {c_bool(t['err'])} {c_bool(t['route'])}) {kids})"
+
+
+def has_kind(g, kinds):
+    for n in g["nodes"]:
+        if n["kind"] in kinds:
+            return True
+        if n["kind"] == "graph" and has_kind(n["graph"], kinds):
+            return True
+    return False
+
+
 def build_case(rng):
     fam = rng.choice(["dag", "gated", "loop", "loop_sync", "emit", "nested", "nested", "mapnode", "topmap", "siblings"])
     run_map = None
@@ -98,7 +145,7 @@ def build_case(rng):
 def run(ctx):
     rng = ctx.rng
     N = Names()
-    batch = CoqBatch("C12", engine.IMPORTS + ["Events", "EventsModel"], shard=120)
+    batch = CoqBatch("C12", engine.IMPORTS + ["Events", "EventsModel", "EventsTree"], shard=120)
     dist = {"family": {}, "failed": 0, "events": 0, "max_depth": 0, "empty_map": 0}
     nontrivial = set()
     samples = []
@@ -144,6 +191,7 @@ def run(ctx):
         # the stream of a synchronous run of a flat graph IS the emission function of EventsModel.v applied to the calls made
         # (RunStart; per call NodeStart, [RouteDecision], NodeEnd | NodeError; RunEnd) - theorem C12_model says every such stream is WF
         flat = not any(nn["kind"] in ("graph", "interrupt") for nn in g["nodes"])
+        defined = False
         if flat and rc["runner"] == "sync" and not rc.get("map") and not rc.get("cache") and obs["status"] in ("completed", "failed", "raised"):
             from harness.props.c16 import missing_error
             node_failed = failed and obs.get("error") not in (1, 2) and not missing_error(obs)
@@ -155,8 +203,22 @@ def run(ctx):
             if not missing_error(obs) and not rc.get("select"):
                 # ... and the same stream derived from the ENGINE MODEL's own run of this program (instrumented model)
                 engine.define_case(batch, n, N, g, rc)
+                defined = True
                 batch.add(n, 111, "events_eqb", "events_of_result $g $res", c_list([c_event(N, e) for e in evs]))
             dist["emission_checked"] = dist.get("emission_checked", 0) + 1
+        # the span TREE of the run is the tree of the nested engine model's run (EventsTree.tree_ng; theorem C12_model_nested_run:
+        # the synchronous stream of every such tree is well formed): synchronous runs emit exactly its depth-first stream,
+        # asynchronous runs a stream with the same tree up to the order within a superstep / among the items of a map
+        if (not rc.get("map") and not rc.get("cache") and not rc.get("select") and obs["status"] in ("completed", "failed")
+                and not has_kind(g, ("interrupt",)) and obs.get("error") != 1):
+            if not defined:
+                engine.define_case(batch, n, N, g, rc)
+            d = pdl.graph_depth(g) + 1
+            if rc["runner"] == "sync":
+                batch.add(n, 112, "events_eqb", f"lin_root (tree_ng {d} Sync $fuel $ng $pv)", c_list([c_event(N, e) for e in evs]))
+            else:
+                batch.add(n, 113, "Bool.eqb", f"sim 60 (tree_ng {d} Async $fuel $ng $pv) {c_stree(N, real_tree(evs))}", "true")
+            dist["tree_checked"] = dist.get("tree_checked", 0) + 1
         # a nested run is parented to the span of the node that launched it (generated wrappers name their graph <node>_g)
         span_node = {e["span"]: e.get("node_name") for e in evs if e["type"] == "NodeStartEvent"}
         for e in evs:
@@ -178,6 +240,11 @@ def run(ctx):
         ctx.violation("harness", res["error"])
     for (ci, code, mv, real, mexp) in res["failed"]:
         case, evs, status = cases_keep.get(ci, ({}, [], None))
+        if code in (112, 113):
+            ctx.violation("correspondence", "the span tree of the run differs from the tree of the engine model's run (EventsTree.tree_ng)"
+                          + (": the synchronous stream is not its depth-first stream" if code == 112 else " (up to the order within a superstep)"),
+                          case=case, observed={"events": [(e["type"], e["span"], e["parent"], e.get("node_name"), e.get("status")) for e in evs], "model": mv[:800]})
+            continue
         if code in (110, 111):
             ctx.violation("correspondence", "the event stream of a synchronous flat run differs from EventsModel.run_events applied to the calls made",
                           case=case, observed={"events": [(e["type"], e["span"], e["parent"], e.get("node_name"), e.get("status")) for e in evs], "model": mv[:800]})
